@@ -786,8 +786,10 @@ func (b *UnsafeLinkBuffer) indexByte(c byte, skip int) int {
 func (b *UnsafeLinkBuffer) recalLen(delta int) (length int) {
 	if delta < 0 && len(b.cachePeek) > 0 {
 		// b.cachePeek will contain stale data if we read out even a single byte from buffer,
-		// so we need to reset it or the next Peek call will return invalid bytes.
-		b.cachePeek = b.cachePeek[:0]
+		// so the next Peek call must not return it. It must not be overwritten either:
+		// a slice returned by an earlier Peek stays valid until Release, so retire the block.
+		b.caches = append(b.caches, b.cachePeek)
+		b.cachePeek = nil
 	}
 	return int(atomic.AddInt64(&b.length, int64(delta)))
 }
